@@ -255,11 +255,12 @@ impl<'a> Cmap12<'a> {
         let start_glyph_id = group.start_glyph_id();
         let end_code = if let Some(limits) = limits {
             // Set our end code to the minimum of our character and glyph
-            // count limit
+            // count limit (max_char is the last valid character, so the
+            // exclusive end is one past it)
             (limits.glyph_count as u64)
                 .saturating_sub(start_glyph_id as u64)
                 .saturating_add(start_code as u64)
-                .min(end_code.min(limits.max_char as u64))
+                .min(end_code.min(limits.max_char as u64 + 1))
         } else {
             end_code
         };
